@@ -25,7 +25,7 @@ LaneOK(e, r) ==
     /\ (Len(e.texts) > 0) => e.final = e.texts[Len(e.texts)]
     /\ e.printedOther = 0                                \* output on rank 0 only
     /\ (Growth) => (IF Verbose(e.mode) THEN e.printed0 > 0 ELSE e.printed0 = 0)
-    /\ (Growth) => (IF Writes(e.mode) /\ Len(e.texts) > 0 THEN e.fileText = e.final ELSE e.fileText = -1)
+    /\ (Growth) => (IF Writes(e.mode) /\ Len(e.texts) > 0 /\ ~("badfile" \in DOMAIN e /\ e.badfile = 1) THEN e.fileText = e.final ELSE e.fileText = -1)
     \* growth: the verbose modes of a serial run report, per iteration, its index, its calls and its non-finite evaluations
     /\ (Growth /\ Verbose(e.mode) /\ e.world = 0) =>
           /\ Len(e.pIters) = Len(e.texts) /\ Len(e.pN) = Len(e.texts) /\ Len(e.pNnf) = Len(e.texts)
